@@ -75,12 +75,16 @@ def generate(seed, tier):
             cfg["force_target_nf"] = False
         cfg["Jdes"] = min(cfg["Jdes"], 10)
         if cfg["scheduler"] == "custom":
-            cfg["custom_plan"] = SC.gen_custom_plan(rw, N, cfg["fs"], max_bins=6, Lcap=48)
+            cfg["custom_plan"] = SC.gen_custom_plan(rw, N, cfg["fs"], max_bins=6, Lcap=48, sorted_f=rw.random() < 0.7)
+    if world == "real-numba" and rw.random() < 0.25:
+        cfg["backend"] = "auto"          # the default: the library picks the backend per bin (K <= 1000 here: never the GPU)
+    fault_window = cfg["win"] in SC.WINDOWS and rw.random() < 0.35
     bigplan = (not sim) and rw.random() < 0.07
     if bigplan:
         N = rw.choice([1500, 3000])
         data = SC.gen_data_spec(rw, N, channels)
         SC.make_big_plan(rw, cfg)
+        cfg["backend"] = backend
     # interfering second analyzer: same data, different window / order / psll
     other = dict(cfg)
     other["win"] = rw.choice([w for w in ["hann", "kaiser", "ones", "signed"] if w != cfg["win"]])
@@ -88,6 +92,8 @@ def generate(seed, tier):
     other["psll"] = rw.choice([60, 90, 170])
     other["band"] = None
     other["force_target_nf"] = False
+    if channels == 2 and rw.random() < 0.4:
+        other = dict(cfg, band=None, force_target_nf=False, first_channel_only=True)     # same plan, auto mode, same process
     nops = rw.randrange(5, 16) if sim else (rw.randrange(4, 10) if bigplan else rw.randrange(5, 41))
     ops = []
     ncomp = 0
@@ -119,6 +125,9 @@ def generate(seed, tier):
             ops.append(["refill", rw.randrange(2 ** 31), rw.choice(["noise", "randwalk", "sine+noise"])])
         elif r < 0.66:
             ops.append(["wrapper", rw.choice(["compute_spectrum", "lpsd"])]); nres += 1
+        elif r < 0.72 and fault_window:
+            # fault injection: the user's window callable fails on its k-th next call, inside whatever operation follows
+            ops.append(["arm_fault", rw.choice([1, 1, 2, 3])])
         elif r < 0.80 and nres:
             ops.append(["attr", rw.randrange(nres), rw.choice(ATTRS)])
         elif r < 0.90 and nres:
@@ -131,7 +140,7 @@ def generate(seed, tier):
             ops.append(["rms", rw.randrange(nres)])
         else:
             ops.append(["plan"])
-    return {"world": W.gen_world(rf, world, 6), "data": data, "cfg": cfg, "other": other, "ops": ops,
+    return {"world": W.gen_world(rf, world, 6), "data": data, "cfg": cfg, "other": other, "ops": ops, "fault_window": fault_window,
             "clock": CK.gen_clock(R.stream(seed, "clock"), p_none=0.2)}
 
 
@@ -269,8 +278,9 @@ def execute(sc, out):
 
         # ---------------- the history on ONE analyzer ------------------------------------------------
         buf = data.copy()        # the caller's buffer of the history (may be aliased by analyzers; refilled in place by "refill")
+        fwin = SC.FaultyWindow(cfg["win"]) if (sc.get("fault_window") and cfg["win"] in SC.WINDOWS) else None
         with clock.installed():
-            an = SC.build_analyzer(buf, cfg)
+            an = SC.build_analyzer(buf, cfg, fwin)
             other = None
         results = []          # (kind, result, expected_raw, expected_vals)
         observed = {}         # (ri, name) -> first observed snapshot
@@ -279,6 +289,7 @@ def execute(sc, out):
         thread_cfgs = {(sc["world"].get("threads"), sc["world"].get("chunksize"))}
         ncompute = nsingle = 0
         prev_kind = None
+        fault_fired = False
 
         def check_plan(p, where):
             nonlocal plan_snap
@@ -368,6 +379,10 @@ def execute(sc, out):
                         results.append(("single", r, eraw, evals))
                         if plan_snap is not None:
                             check_plan(an.plan(), "after compute_single_bin")
+                    elif kind == "arm_fault":
+                        if fwin is not None:
+                            fwin.arm(op[1])
+                            out.count("window_fault_armed")
                     elif kind == "resched":
                         sess.resched(op[1])
                         if world == "real-numba":
@@ -397,12 +412,13 @@ def execute(sc, out):
                         baselines.clear()
                         baselines[key0] = (base_raw, base_vals)
                         plan_snap = None
-                        an = SC.build_analyzer(buf, cfg)
+                        an = SC.build_analyzer(buf, cfg, fwin)
                         other = None
                         out.count("buffer_refilled_in_place")
                     elif kind == "other":
                         if other is None:
-                            other = SC.build_analyzer(buf, sc["other"])
+                            o_data = np.array(buf[0], copy=True) if (sc["other"].get("first_channel_only") and buf.ndim == 2) else buf
+                            other = SC.build_analyzer(o_data, sc["other"])
                         try:
                             other.compute()
                             out.count("other_analyzer_compute")
@@ -441,6 +457,9 @@ def execute(sc, out):
                         if ri < len(results) and sc["data"]["channels"] == 1:
                             results[ri][1].get_rms()
                             orders_seen.add("rms")
+            except SC.InjectedFault:
+                out.count("injected_window_fault_fired_in_" + kind)
+                fault_fired = True
             except Exception as e:
                 from dsim.sched import HarnessError
 
@@ -450,6 +469,8 @@ def execute(sc, out):
                     out.count("export_raised_ignored")  # exports are C20's business
                 else:
                     out.violate("exception", f"op={kind}", f"{kind} raised {type(e).__name__}: {str(e)[:200]} (a fresh analyzer computes fine)")
+            if fwin is not None and kind != "arm_fault":
+                fwin.disarm()
             prev_kind = kind if kind in ("plan", "compute", "single", "other") else prev_kind
 
         # ---------------- end of history: nothing obtained earlier may have changed ------------------
